@@ -38,7 +38,7 @@ func init() {
 		},
 		Run: run,
 		Floors: func(t string) map[string]int64 {
-			return map[string]int64{"orbit.reversed_single_ring": 1000, "orbit.unclosed": 1000, "orbit.all_reversed": 500, "shape.with_holes": 500, "shape.hole_inside_the_box_of_another_hole": 150, "shape.multipolygon": 300,
+			return map[string]int64{"orbit.reversed_single_ring": 1000, "orbit.unclosed": 1000, "orbit.all_reversed": 500, "orbit.rings_in_another_order": 500, "shape.with_holes": 500, "shape.hole_inside_the_box_of_another_hole": 150, "shape.multipolygon": 300,
 				"centroid.MultiPolygon": 1000, "centroid.Polygon": 500, "area.exact_equal": 5000, "area.float": 1000, "op.area": 500, "op.centroid": 500,
 				"distance.on_line": 500, "distance.beyond_end": 500, "distance.zero_length_segment": 200, "buffer": 500, "length": 1000, "line.long": 300, "storage.rings_share_one_backing_array": 1000, "area.again_after_centroid_of_unclosed_spelling": 1000, "shape.far_from_origin": 1000, "shape.float_far_from_origin": 500, "shape.island_in_a_hole_of_another_member": 100, "line.very_long": 100, "line.extreme_magnitude": 200}
 		},
@@ -358,10 +358,25 @@ func runPolygon(c *core.Ctx) {
 				c.Count("orbit.unclosed")
 			}
 			mp := make(geom.MultiPolygon, nm)
+			mpS := make(geom.MultiPolygon, nm) // the same members with their rings in another order
+			shuffled := false
 			for m := range bases {
 				mp[m] = bases[m].spell(sps[m])
+				mpS[m] = mp[m]
+				if len(mp[m]) > 1 && r.Chance(0.3) {
+					// the rings in any order (a hole may come before its shell, as in the results of
+					// the library's own Difference and Union): the region is the same
+					mpS[m] = make(geom.Polygon, len(mp[m]))
+					for i, j := range r.Perm(len(mp[m])) {
+						mpS[m][i] = mp[m][j]
+					}
+					shuffled = true
+				}
 			}
-			checkSpelling(c, mp, sps, wantA, wantCx, wantCy, 0, 1, "grid", mask)
+			if shuffled {
+				c.Count("orbit.rings_in_another_order")
+			}
+			checkSpelling(c, mpS, sps, wantA, wantCx, wantCy, 0, 1, "grid", mask)
 			if r.Chance(0.25) {
 				// the same lattice shape far from the origin (projected map coordinates: a 100-unit
 				// shape at 2^20 .. 2^30): the area is unchanged and still exactly representable, so a
